@@ -43,6 +43,8 @@ add("C17", "Hypothesis generators (IRI families with shared/unshared segments) +
     "Stems are recomputed as the longest common prefix of the instance IRIs cut back to the last separator; examples must be actual instances / values; the constraints must equal those of a run without the two options.", "DESIGN.md 2/C17")
 add("C08", "Hypothesis differential testing across delivery channels (format x source kind x compression x partition) against the raw N-Triples run",
     "Each generated graph is delivered through 4 drawn channels built from real files (gz/xz/zip, several files, file:// URLs, rdflib Graph objects, seven syntaxes) and the canonical document of each must equal that of the reference channel; frequency ties fall back as in C09.", "DESIGN.md 2/C08")
+add("C15", "Hypothesis differential testing: endpoint run through an in-process SPARQL evaluator vs local run; cache on vs off; query log",
+    "The HTTP client is replaced from outside by an in-process evaluator that answers exactly the query text sheXer sends; the canonical document must equal the local extraction of the same graph, be independent of the cache flag, and caching must never send more queries.", "DESIGN.md 2/C15")
 
 ALL = ["C%02d" % i for i in range(1, 21)]
 def main():
